@@ -274,4 +274,22 @@ def gen_config(repo, out):
 
 EXTRA_GENERATORS.append(("config", gen_config))
 
+
+def gen_config_init(repo, out):
+    """_initial_version / _initial_version_pep440: return utils.now().strftime(<const>)"""
+    mod = parse_file(repo, "config.py")
+    for fname, coqname in (("_initial_version", "INITIAL_VERSION_FMT"), ("_initial_version_pep440", "INITIAL_VERSION_PEP440_FMT")):
+        fn = top_func(mod, fname)
+        body = [n for n in fn.body if not (isinstance(n, ast.Expr) and isinstance(n.value, ast.Constant))]
+        if len(body) != 1 or not isinstance(body[0], ast.Return):
+            die("%s: body is not a single return" % fname)
+        call = body[0].value
+        if not (isinstance(call, ast.Call) and isinstance(call.func, ast.Attribute) and call.func.attr == "strftime" and len(call.args) == 1
+                and ast.unparse(call.func.value) == "utils.now()"):
+            die("%s: expected utils.now().strftime(<format>), got %s" % (fname, ast.unparse(call)))
+        emit_str(out, coqname, cstr(call.args[0]), "config.%s: utils.now().strftime(...)" % fname)
+
+
+EXTRA_GENERATORS.append(("config_init", gen_config_init))
+
 import t1_calls  # noqa: F401,E402  (structural call orders)
